@@ -41,7 +41,8 @@ class UserFunction:
 
     def _transform_to_user_function(self, fun, defaults, args):
         self.fun = fun
-        self.defaults = defaults
+        # own copy: set_default/remove_default change this dict in place
+        self.defaults = dict(defaults)
         self.args = args
         if callable(self.fun) and self.defaults == {} and self.args == {}:
             self._set_input_args_for_function()
